@@ -548,8 +548,10 @@ impl RoutingThread {
                 if result.is_some() {
                     fetched_blocks.push((peer_index, *hash));
                 } else {
-                    // if we already have the block added don't need to request it from peer
-                    self.blockchain_sync_state.remove_entry(*hash);
+                    // if we already have the block added (or this peer cannot serve it) don't need to
+                    // request it from this peer. entries of other peers (possibly in flight) stay
+                    self.blockchain_sync_state
+                        .remove_entry_for_peer(peer_index, *hash);
                 }
             }
         }
@@ -828,7 +830,8 @@ impl ProcessEvent<RoutingEvent> for RoutingThread {
                 ))
                 .await;
 
-                self.blockchain_sync_state.mark_as_fetched(block_hash);
+                self.blockchain_sync_state
+                    .mark_as_fetched_from_peer(peer_index, block_hash);
 
                 self.fetch_next_blocks().await;
 
@@ -893,7 +896,8 @@ impl ProcessEvent<RoutingEvent> for RoutingThread {
                     "received blockchain update event : {:?}",
                     block_hash.to_hex()
                 );
-                self.blockchain_sync_state.remove_entry(block_hash);
+                self.blockchain_sync_state
+                    .remove_entry_unless_fetching(block_hash);
                 self.fetch_next_blocks().await;
             }
 
